@@ -590,7 +590,11 @@ pub fn abstract_plus(first: &Value, second: &Value) -> Value {
 
     match (first_num, second_num) {
         (Some(f), Some(s)) => {
-            return Value::Number(Number::from_f64(f + s).unwrap());
+            // A sum that overflows to infinity is not representable in
+            // JSON; like serde_json itself, represent it as null.
+            return Number::from_f64(f + s)
+                .map(Value::Number)
+                .unwrap_or(Value::Null);
         }
         _ => {}
     };
